@@ -62,7 +62,7 @@ func TestReplay(t *testing.T) { stats.RunReplays(t) }
 
 const (
 	kPublic    = "public"
-	kPrivate   = "private"   // 10/8, 172.16/12, 192.168/16, fc00::/7
+	kPrivate   = "private"   // 10/8, 172.16/12, 192.168/16, fc00::/7 and the reserved blocks the private-net option covers
 	kLoopback  = "loopback"  // 127/8, ::1
 	kLinkLocal = "linklocal" // 169.254/16, fe80::/10
 	kUnspec    = "unspec"    // 0.0.0.0, :: : documented as never a valid client address
@@ -766,7 +766,10 @@ var pools = map[string][]string{
 		"2606:4700:4700::1111", "2607:f8b0:4004:83f::200e", "2a00:1450:4001:81b::200e", "2400:cb00::1", "2001:4860:4860::8888",
 		"2001:200::1", "2003::1", "3ffe::1", "2a02:ffff:ffff:ffff:ffff:ffff:ffff:ffff", "2001:db9::1", "2001:db7:ffff::1"},
 	kPrivate: {"10.0.0.1", "10.8.1.2", "10.255.255.255", "10.0.0.0", "172.16.0.1", "172.31.255.255", "172.20.3.4", "192.168.0.1", "192.168.1.15",
-		"192.168.255.255", "fc00::1", "fd00::1", "fdff:ffff:ffff:ffff:ffff:ffff:ffff:ffff", "fd12:3456:789a:1::1"},
+		"192.168.255.255", "fc00::1", "fd00::1", "fdff:ffff:ffff:ffff:ffff:ffff:ffff:ffff", "fd12:3456:789a:1::1",
+		// the reserved blocks that the same option covers: unicast, not private-use in the RFC 1918 sense, yet never a client
+		"100.64.3.7", "100.127.255.254", "198.18.0.9", "198.19.255.255", "240.1.2.3", "192.0.2.55", "198.51.100.7", "203.0.113.9", "192.0.0.9",
+		"192.88.99.1", "2001:db8::5", "2002::1", "2002:c000:204::1", "2001::1", "2001:2::9", "100::5"},
 	kLoopback:  {"127.0.0.1", "127.255.255.254", "127.1.2.3", "::1"},
 	kLinkLocal: {"169.254.0.1", "169.254.255.254", "169.254.169.254", "fe80::1", "fe80::abcd", "febf:ffff::1"},
 }
